@@ -1,6 +1,10 @@
 CHECK = {
     # translator: reflection over the record types of the repository -> schema table for the `decide` theorems
-    "gen": [{"pkg": "extract_c08", "out": "lean/ClusterVerif/Gen/C08.lean"}],
+    "gen": [{"pkg": "extract_c08", "out": "lean/ClusterVerif/Gen/C08.lean"},
+            # field numbers / wire kinds of pb.Pin and pb.PinOptions from the generated api/pb/types.pb.go (go/ast)
+            {"pkg": "extract_c08pb", "out": "lean/ClusterVerif/Gen/C08Pb.lean"},
+            # every construction / mutation site of the wire record types in non-test code (go/ast), fields classified
+            {"pkg": "extract_c08prod", "out": "lean/ClusterVerif/Gen/C08Prod.lean"}],
     "suites": [
         # real encode -> real decode of every record x format, own field-by-field dump on both sides
         suite("roundtrip", "c08", 8000, 150000, stdin=True, args=["-suite", "rt"]),
@@ -8,11 +12,17 @@ CHECK = {
         suite("equals", "c08", 2000, 30000, stdin=True, args=["-suite", "eq"]),
         # String/FromString/JSON forms of TrackerStatus, PinMode, PinType; the parsers on arbitrary words
         suite("strings", "c08", 2000, 20000, stdin=True, args=["-suite", "str"]),
+        # byte level: real ProtoMarshal bytes = the model's bytes exactly; real proto.Unmarshal/ProtoUnmarshal = the model decoder on
+        # permuted / duplicated / unknown-field / mistyped / damaged encodings; url.QueryEscape/QueryUnescape/ParseQuery = the model
+        suite("wire", "c08", 6000, 120000, stdin=True, args=["-suite", "wire"]),
         # SEARCH (not proof): mutated valid encodings and random bytes into every decoder entry point, under recover()
         suite("decoders", "c08", 10000, 250000, stdin=True, args=["-suite", "fuzz"], timeout={"quick": 600, "thorough": 2400}),
     ],
     "lean_sources": ["ClusterVerif/Model/C08.lean", "ClusterVerif/Spec/C08.lean", "ClusterVerif/Lemmas/C08.lean",
-                     "ClusterVerif/Gen/C08.lean"],
+                     "ClusterVerif/Gen/C08.lean", "ClusterVerif/Model/C08Wire.lean", "ClusterVerif/Lemmas/C08Wire.lean",
+                     "ClusterVerif/Lemmas/C08Query.lean", "ClusterVerif/Lemmas/C08Total.lean", "ClusterVerif/Lemmas/C08Eq.lean",
+                     "ClusterVerif/Model/C08Prod.lean", "ClusterVerif/Lemmas/C08Prod.lean", "ClusterVerif/Gen/C08Pb.lean",
+                     "ClusterVerif/Gen/C08Prod.lean"],
     "rule": "roundtrip: a record type (Pin 40%, PinOptions 10%, state dump 4%, the other 20 records uniformly) x one of the formats the system "
             "uses for it x a value drawn by a reflection-based generator with field-aware pools (all pin types, depths -1/0/1/2 and odd ones, "
             "0-4 allocations (elements may be the empty peer ID), references nil / defined / pointing to cid.Undef, cid.Undef in every CID field,  0-3 origins with and without /p2p/, metadata incl. empty key/value, reference/update CIDs of both CID versions, "
